@@ -8,8 +8,12 @@ for a split (I, D) of range(n) and prescribed values x,
                          bit-identical to the input; with diag == 1 the solution is the one above;
                          matrix rhs: rows D of M zero, rows I untouched, finite eigenvalues of the
                          enforced pencil == eigenvalues of the condensed pencil,
-  penalize               only the diagonal entries D change (one common penalty P), rhs[D] == P*x[D],
-                         |y_pen - y| <= C/P with C computed from the dense model,
+  penalize               nothing but the constrained diagonal / rhs entries changes; the solution of whatever
+                         system is returned satisfies |y_pen - y| <= C/P (P = smallest penalty found on the
+                         constrained diagonal, C from the dense model); matrix rhs: the bounded eigenvalues of
+                         the penalised pencil == eigenvalues of the condensed pencil (within a P-window the
+                         dense model can decide).  The value of the penalty and whether it replaces or is
+                         added to the diagonal are NOT demanded (the statement does not),
   mpc                    y[S] == T y[M] + g and the original rows U and M hold (unsymmetric elimination),
   every call             argument fingerprints unchanged (A, b only when overwrite was not requested);
                          a second pass with read-only buffers must give the same result.
@@ -32,6 +36,12 @@ Oracle pitfalls recorded while building this (library right, first draft wrong):
    zero the penalty parameter is infinite and the statement ("agrees up to its penalty parameter")
    is vacuous: such cases are dropped and counted, not judged.
  * a DOF view denotes the set `view.flatten()` (which DOFs a view selects is property C07).
+ * argument fingerprints are taken on *values*: `scipy.sparse.linalg.spsolve` canonicalises the storage of
+   the matrix it is handed (sums duplicates, sorts indices) in place, so a byte-level checksum of
+   data/indices/indptr of the condensed matrix changes across `solve` although no entry does.
+ * eigenvalue clauses: the dense model of the *penalised* pencil loses eps*P/lambda_min(M); with an
+   ill-conditioned mass matrix (ElementQuadP(5), cond 2e6) no penalty separates model rounding from penalty
+   error, such cases are dropped and counted (Ref.pencil).
 """
 from __future__ import annotations
 
@@ -95,6 +105,11 @@ ASSUMPTIONS = [
     "clauses are evaluated for every system",
     "sparse formats other than CSR may be rejected with an exception (counted as tolerated); a format that is "
     "accepted must give the right answer",
+    "the condensed system is compared with the one the docstring of condense defines (A_II, b_I - A_ID x_D) in the "
+    "ordering of I that condense returns",
+    "eigenvalue clauses are evaluated for symmetric A and symmetric positive definite M only, and for the penalised "
+    "pencil only when the penalty lies in the window the dense model can decide (otherwise dropped and counted)",
+    "index arrays that list a constrained index more than once denote the same set (family repeated-index)",
 ]
 
 CONDMAX = 1e8
@@ -647,7 +662,7 @@ def check_enforce(ctx, A, b, x, split, ref, tag, diag=None, overwrite=False, y_c
     if overwrite:
         kw["overwrite"] = True
     ctx.reached("overwrite:on" if overwrite else "overwrite:off")
-    has_empty = reach_empty_rows(ctx, A, split)
+    reach_empty_rows(ctx, A, split)
     if M is not None:
         ctx.reached("enforce:mass-matrix-recursion")
     try:
@@ -681,7 +696,7 @@ def check_enforce(ctx, A, b, x, split, ref, tag, diag=None, overwrite=False, y_c
     if ref.Md is not None:
         rhs_kind = "matrix"
         Med = np.asarray(be.toarray())
-        okM = ctx.check("enforce-mass-rows", same(Med[D], np.zeros((D.size, n))) and same(Med[I], ref.Md[I]),
+        ctx.check("enforce-mass-rows", same(Med[D], np.zeros((D.size, n))) and same(Med[I], ref.Md[I]),
                         mech=mk("mass-rows", "M"), Deff=split.Deff(), **tag)
         pc = ref.pencil()
         if pc is not None and pc["condM"] <= 1e9:
@@ -1022,7 +1037,6 @@ def fam_exhaustive_small(ctx, k):
     """Every ordered subset D of range(n) x one row-emptiness mask per case (n = 4; 5 in thorough):
     the structural clauses of enforce are decided exhaustively over the order and position of
     constrained rows without stored entries."""
-    from skfem.utils import enforce
     rng = ctx.rng()
     n = 4 if k < 16 else 5
     maskbits = k if k < 16 else k - 16
@@ -1172,7 +1186,7 @@ def fam_mpc(ctx, k):
                      [Ad[np.ix_(Mi, Uo)], Ad[np.ix_(Mi, Mi)] + Ad[np.ix_(Mi, S)] @ Td]])
     yref = np.concatenate([b[Uo] - Ad[np.ix_(Uo, S)] @ gd, b[Mi] - Ad[np.ix_(Mi, S)] @ gd])
     sc = float(np.abs(Ad).max() * max(1.0, np.abs(Td).sum(0).max() if Td.size else 1.0))
-    okB = ctx.close("mpc-reduced-system", np.asarray(B.toarray()), Bref, rtol=1e-13, scale=sc, mech="mpc:matrix", **tag)
+    ctx.close("mpc-reduced-system", np.asarray(B.toarray()), Bref, rtol=1e-13, scale=sc, mech="mpc:matrix", **tag)
     ctx.close("mpc-reduced-system", yr, yref, rtol=1e-13,
               scale=float(np.abs(b).max() + (np.abs(Ad[:, S]) @ np.abs(gd)).max()), mech="mpc:rhs", **tag)
     cond = float(np.linalg.cond(Bref)) if Bref.size else 1.0
@@ -1333,7 +1347,7 @@ def fam_fem_views(ctx, k):
         sv = Split(name, coll, Dset, N, f"{name}:{lab}")
         sa = Split(name, np.asarray(given, dtype=[np.int32, np.int64][k % 2]), Dset, N, f"{name}:array-of-same-set")
         tag = dict(tag0, view=lab)
-        ys = run_linear_ops(ctx, A, b, x, [sv, sa], tag, rot=k)
+        run_linear_ops(ctx, A, b, x, [sv, sa], tag, rot=k)
         # bit-for-bit: the view spelling and the array spelling of the same set
         for op, fn, kw in (("condense", condense, {}), ("enforce", enforce, {}), ("penalize", penalize,
                                                                                  {"epsilon": 2.0 ** -33})):
@@ -1386,7 +1400,7 @@ def fam_fem_views(ctx, k):
 @silenced
 def fam_formats(ctx, k):
     """Formats other than CSR: rejecting with an exception is tolerated, a wrong answer is not."""
-    from skfem.utils import condense, enforce, penalize
+    from skfem.utils import enforce
     rng = ctx.rng()
     n = int(rng.integers(4, 16))
     fmt = ["csc", "lil", "dok", "coo", "dia", "bsr"][k % 6]
@@ -1551,7 +1565,7 @@ def fam_repeated(ctx, k):
         return REPEAT if np.allclose(bc, model, rtol=1e-13, atol=0) and ref.Ad[np.ix_(I, rep.astype(np.int64))].any() \
             else None
     mech = pred()
-    y = check_condense(ctx, A, b, x, split, ref, tag, mechs={"rhs": mech or "condense:rhs",
+    check_condense(ctx, A, b, x, split, ref, tag, mechs={"rhs": mech or "condense:rhs",
                                                             "residual": mech or "condense:residual"})
     check_enforce(ctx, A, b, x, split, ref, tag, y_condense=None)
     check_penalize(ctx, A, b, x, split, ref, tag, epsilon=2.0 ** -30)
